@@ -117,6 +117,14 @@ func (t *DestinationTask) Do(ctx context.Context, batch *Batch) error {
 		}
 	}
 
+	if ackCount < len(positions) {
+		// The destination answered with fewer acks than records written (e.g.
+		// empty ack responses). The remaining records were never confirmed, so
+		// they must not be treated as delivered: fail instead of letting the
+		// worker ack them to the source.
+		return cerrors.Errorf("received acks for only %d of %d records from destination", ackCount, len(positions))
+	}
+
 	return nil
 }
 
